@@ -112,7 +112,7 @@ def _parse_witness(out):
             obs = exp = None
             j = i + 1
             while j < len(lines) and lines[j].startswith('  '):
-                s = lines[j].strip()
+                s = lines[j][2:] if lines[j].startswith('  arg ') else lines[j].strip()
                 if s.startswith('arg '):
                     k, _, v = s[4:].partition('=')
                     args[k] = v
